@@ -45,6 +45,9 @@ class C02(XsProp):
             else:
                 cs.append('xs rec on | limits 5000 %s - | compile %s | walk %d 300 %d' % (
                     rng.choice(['-', '-', '400', '5']), hexsrc(src), rng.getrandbits(32), rng.choice([60, 120, 200])))
+        for src in ['7 var x x 1 "u" insert-tag ! x x tags', '10 var X X ^hex ! X X 1 +', '0.0 var z -0.0 ! z z', '[ 1 ] var v v 2 "t" insert-tag ! v v tags',
+                    '3 var q 3 0 do q ^bin ! q q ^dec ! q loop q', ': f 3 0 do I 10 * local x x loop ; f', '1 2 3 rot rot swap over drop']:
+            cs.append('xs rec on | limits 5000 - - | compile %s | walk %d 300 200' % (hexsrc(src), rng.getrandbits(32)))
         return cs
 
     def nontrivial(self, line):
